@@ -131,3 +131,22 @@ package mangos
 //@ func init$8
 //@   ensures cast("*Message", result).bsize == 65536 && cap(cast("*Message", result).bbuf) == 65536 && len(cast("*Message", result).bbuf) == 0 && len(cast("*Message", result).hbuf) == 0
 //@
+
+// ---- reference count (C17, C11): one atomic step per call, exact ----
+//@ func (*Message).Free
+//@   nullable m
+//@   loop 1 invariant !called("Put")
+//@   ensures m != nil && old(m.refcnt) > 0 ==> m.refcnt == old(m.refcnt) - 1
+//@   ensures m == nil || old(m.refcnt) != 1 ==> !called("Put")
+//@   ensures m != nil && old(m.refcnt) == 1 && m.bsize == 0 ==> !called("Put")
+//@   before call:Put#1 assert m.refcnt == 0 && m.bsize == messageCache[i].maxbody && arg0 == iface(m)
+//@
+//@ func (*Message).Clone
+//@   ensures old(m.refcnt) >= 0 && old(m.refcnt) < 2147483647 ==> m.refcnt == old(m.refcnt) + 1
+//@
+//@ func (*Message).MakeUnique
+//@   ensures old(m.refcnt) == 1 ==> result == m && m.refcnt == 1 && !called("Dup") && !called("Free")
+//@   ensures old(m.refcnt) != 1 ==> result != m && called("Dup") && called("Free")
+//@
+//@ func NewMessage
+//@   ensures result.refcnt == 1
